@@ -216,6 +216,27 @@ def main():
             break
         results.append(r)
         obligations[f"stream:{r.name}"] = r.ok
+    # pinned corpus (finding witnesses, minimised past failures): replayed on every run
+    if not crashed and hasattr(mod, "replay"):
+        cres = StreamResult("corpus", rule="pinned inputs under corpus/%s (witnesses of repaired or known findings, past failures); replayed first-class on every run" % pid)
+        for c in ctx.corpus_cases():
+            if c.get("stream") in (None, "finding"):
+                continue
+            try:
+                d = mod.replay(ctx, c["stream"], c["case"] if "case" in c and isinstance(c["case"], dict) and "stream" in c["case"] else c.get("case", c))
+            except Exception:
+                crashed = "corpus replay: " + traceback.format_exc()
+                break
+            cres.evaluations += 1
+            cres.nontrivial += 1
+            if d is not None:
+                d.stream = "corpus"
+                if isinstance(d.case, dict) and c.get("finding_key"):
+                    d.case["finding_key"] = c["finding_key"]
+                cres.disagreements.append(d)
+        if cres.evaluations:
+            results.append(cres)
+            obligations["stream:corpus"] = cres.ok
     if crashed:
         print("check: internal failure in correspondence stream\n" + crashed)
         write_evidence(ev_path, pid, tier, seed, obligations, results, info, t0, violations=0, note="internal failure: " + crashed[-300:])
